@@ -63,6 +63,14 @@ fn wr_rejected(key: Option<usize>, blob: usize, off: i64) -> Op {
     Op::Write(s)
 }
 
+/// A keyed write whose index record is about 9 KiB long (metadata).
+fn wr_big_record(key: usize, blob: usize) -> Op {
+    let mut s = WriteSpec::simple(Some(key), blob);
+    s.entry = WEntry::Opts;
+    s.metadata = Some(serde_json::json!({"pad": "m".repeat(9000 + blob), "w": blob}));
+    Op::Write(s)
+}
+
 /// Operation sets chosen to share keys / addresses / bucket files.
 fn op_sets() -> Vec<(Vec<Op>, Vec<Op>)> {
     // (initial state, concurrent operations)
@@ -86,6 +94,12 @@ fn op_sets() -> Vec<(Vec<Op>, Vec<Op>)> {
         (vec![wr(Some(0), 1)], vec![wr_rejected(None, 1, 700), Op::ReadHash { addr: a(1) }]),
         (vec![wr(Some(0), 0)], vec![wr_rejected(Some(0), 0, 0), Op::Read { key: 0 }]),
         (vec![wr(Some(0), 1)], vec![wr_rejected(Some(0), 1, -2), Op::Read { key: 0 }, Op::Meta { key: 0 }]),
+        // a rejected commit of cold data racing with a successful writer of the same bytes
+        (vec![], vec![wr_rejected(Some(1), 0, 0), wr(Some(0), 0)]),
+        (vec![], vec![wr_rejected(None, 1, 0), wr(Some(0), 1), Op::Read { key: 0 }]),
+        // records of more than 8 KiB (more than one buffer of a buffered writer) appended concurrently
+        (vec![], vec![wr_big_record(0, 0), wr_big_record(0, 1)]),
+        (vec![wr(Some(0), 2)], vec![wr_big_record(0, 0), Op::Remove { key: 0 }, Op::Meta { key: 0 }]),
         // the temp area lives on another filesystem (publication cannot be a rename)
         (vec![Op::TmpElsewhere], vec![wr(None, 0), Op::ReadHash { addr: a(0) }]),
         (vec![wr(Some(1), 0), Op::TmpElsewhere], vec![wr(Some(0), 0), Op::Read { key: 1 }]),
